@@ -132,19 +132,19 @@ macro_rules! set_aux_harness {
     };
 }
 
-// @harness id=c17_set_inter_step props=C17 tier=thorough cap=5400 mem=40
+// @harness id=c17_set_inter_step props=C17 tier=attempt cap=5400 mem=40
 // @desc one step of std.setInter's merge walk over two 2-element sets, from any cursors and any comparison outcome: Less advances a, Greater advances b, Equal appends a[i] and advances both; the walk ends as soon as one side is exhausted; otherwise the continuation compares (a[i'], b[j'])
 // @bound sets of 2 elements, all cursor positions, all three outcomes; key function = identity
 // @funcs Evaluator::do_std_set_inter_aux, Evaluator::check_thunk_args_and_execute_call, Evaluator::check_call_thunk_args
 set_aux_harness!(c17_set_inter_step, 0);
 
-// @harness id=c17_set_union_step props=C17 tier=thorough cap=5400 mem=40
+// @harness id=c17_set_union_step props=C17 tier=attempt cap=5400 mem=40
 // @desc one step of std.setUnion's merge walk: Less appends a[i], Greater appends b[j], Equal appends a[i] once and advances both; on exhaustion of one side the remainder of the other is appended in order
 // @bound sets of 2 elements, all cursor positions, all three outcomes; key function = identity
 // @funcs Evaluator::do_std_set_union_aux
 set_aux_harness!(c17_set_union_step, 1);
 
-// @harness id=c17_set_diff_step props=C17 tier=thorough cap=5400 mem=40
+// @harness id=c17_set_diff_step props=C17 tier=attempt cap=5400 mem=40
 // @desc one step of std.setDiff's merge walk: Less appends a[i] (it is not in b), Equal drops it, Greater advances b; when b is exhausted the remainder of a is appended, when a is exhausted nothing more
 // @bound sets of 2 elements, all cursor positions, all three outcomes; key function = identity
 // @funcs Evaluator::do_std_set_diff_aux
@@ -203,7 +203,7 @@ fn c17_set_member_check() {
 }
 }
 
-// @harness id=c17_min_max_check_item props=C17 tier=thorough cap=5400 mem=40
+// @harness id=c17_min_max_check_item props=C17 tier=attempt cap=5400 mem=40
 // @desc one step of std.minArray / std.maxArray over a 3-element array from any position: the candidate is replaced only on a STRICT improvement (Greater for min, Less for max), so the first minimal / maximal element is kept; the key of the loser is dropped from the value stack; at the end the chosen element's thunk is scheduled, otherwise the next element's key is requested
 // @bound array of 3 elements, cur_index in {1,2}, any retained index, any outcome
 // @funcs Evaluator::do_std_min_array_check_item, Evaluator::do_std_max_array_check_item
